@@ -62,6 +62,8 @@ class Ctx:
     def facts(self):
         if self._facts is None:
             self._doc = extract_ast(self.src)
+            import normalize
+            normalize.normalise(self._doc)      # behaviour-preserving rewrites (private renames, if-let/match, continue guards, new helpers inlined)
             self._facts = ir.Facts(self._doc, root=self.src)
         return self._facts
 
